@@ -51,9 +51,10 @@ PARSERS: List[Tuple[str, Any, str, bool, bool]] = [
 def install(taps: Taps, ctx: Ctx) -> None:
     for name, enum, meth, _, _ in PARSERS:
         def factory(orig, name=name, enum=enum):
-            def parse(cls, s):
+            def parse(cls, *args, **kwargs):
+                s = args[0] if args else next(iter(kwargs.values()), None)
                 try:
-                    out = orig(cls, s)
+                    out = orig(cls, *args, **kwargs)
                 except Exception:
                     ctx.count(f"{name}.parse_rejected")
                     raise
